@@ -360,7 +360,7 @@ func cmdCheck(prop, tier string, rest []string) int {
 			results := map[string]replayResult{}
 			raws := map[string]string{}
 			if len(batch) > 0 {
-				r, raw, err := replayTapes(all, pkgRel, batch, 120*time.Second, 8<<20)
+				r, raw, err := replayTapes(all, pkgRel, batch, 600*time.Second, 8<<20)
 				if err != nil {
 					inconclusive = append(inconclusive, "replay failed: "+err.Error())
 				}
